@@ -173,7 +173,7 @@ func boolFactsOfBlock(b *ssa.BasicBlock, ctx bool) []BoolFact {
 	if ctx {
 		if site := SoleCallSite(fn); site != nil {
 			out = append(out, boolFactsOfBlock(site.Block(), true)...)
-		} else if sites := pkgCallers(fn); len(sites) > 0 && !factsBusy[fn] && len(factsBusy) < 3 {
+		} else if sites := factSites(fn); len(sites) > 0 && !factsBusy[fn] && len(factsBusy) < 3 {
 			// an unexported helper called only at known sites of its package: what holds at every one of them
 			factsBusy[fn] = true
 			var common []BoolFact
@@ -202,6 +202,112 @@ func boolFactsOfBlock(b *ssa.BasicBlock, ctx bool) []BoolFact {
 }
 
 var factsBusy = map[*ssa.Function]bool{}
+
+// factSites: every place an unexported function or method is called from - plain calls and calls of its method values.
+func factSites(fn *ssa.Function) []ssa.Instruction {
+	if fn == nil || fn.Parent() != nil || fn.Object() == nil || fn.Object().Exported() {
+		return nil
+	}
+	bs, used := boundCallSites(fn)
+	if !used {
+		return pkgCallers(fn)
+	}
+	if bs == nil {
+		return nil
+	}
+	// plain calls next to the method values: pkgCallers refuses a function whose value is taken, so count them here
+	var sites []ssa.Instruction
+	bad := false
+	for _, g := range PkgFuncs(fn.Pkg) {
+		if BoundTarget(g) == fn && g != fn {
+			continue
+		}
+		EachInstr(g, func(in ssa.Instruction) {
+			if cc := CC(in); cc != nil && cc.StaticCallee() == fn {
+				if _, isCall := in.(*ssa.Call); isCall {
+					sites = append(sites, in)
+				} else {
+					bad = true
+				}
+			}
+		})
+	}
+	if bad {
+		return nil
+	}
+	return append(sites, bs...)
+}
+
+// ArgOfParam: the value parameter #i of fn has at the call site: the i-th argument of a plain call; for the call of a
+// method value (made by x.M), the bound receiver for #0 and argument #i-1 otherwise. nil if the site is neither.
+func ArgOfParam(site ssa.Instruction, fn *ssa.Function, i int) ssa.Value {
+	cc := CC(site)
+	if cc == nil {
+		return nil
+	}
+	if mc, ok := cc.Value.(*ssa.MakeClosure); ok {
+		if w, _ := mc.Fn.(*ssa.Function); w != nil && w != fn && BoundTarget(w) == fn && len(mc.Bindings) == 1 {
+			if i == 0 {
+				return mc.Bindings[0]
+			}
+			if i-1 < len(cc.Args) {
+				return cc.Args[i-1]
+			}
+		}
+		return nil
+	}
+	if i < len(cc.Args) {
+		return cc.Args[i]
+	}
+	return nil
+}
+
+var boundSitesMemo = map[*ssa.Function][]ssa.Instruction{}
+var boundUsedMemo = map[*ssa.Function]bool{}
+
+// boundCallSites: for a method whose value is taken (x.M as a func), the calls of those method values when every one
+// of them is only ever called (not stored or passed on); used reports whether any method value of fn exists at all.
+func boundCallSites(fn *ssa.Function) (sites []ssa.Instruction, used bool) {
+	if r, ok := boundSitesMemo[fn]; ok {
+		return r, boundUsedMemo[fn]
+	}
+	boundSitesMemo[fn] = nil
+	if fn == nil || fn.Pkg == nil || fn.Signature.Recv() == nil {
+		return nil, false
+	}
+	bad := false
+	for _, g := range PkgFuncs(fn.Pkg) {
+		EachInstr(g, func(in ssa.Instruction) {
+			mc, ok := in.(*ssa.MakeClosure)
+			if !ok {
+				return
+			}
+			w, _ := mc.Fn.(*ssa.Function)
+			if w == nil || w == fn || BoundTarget(w) != fn {
+				return
+			}
+			used = true
+			if mc.Referrers() == nil {
+				bad = true
+				return
+			}
+			for _, r := range *mc.Referrers() {
+				if c, ok := r.(*ssa.Call); ok && c.Call.Value == ssa.Value(mc) {
+					sites = append(sites, c)
+				} else if _, ok := r.(*ssa.DebugRef); ok {
+				} else {
+					bad = true
+				}
+			}
+		})
+	}
+	boundUsedMemo[fn] = used
+	if bad {
+		sites = nil
+	}
+	boundSitesMemo[fn] = sites
+	return sites, used
+}
 
 // PredicateCmpFacts: the comparisons implied by the boolean helper call cl having returned val, with the helper's
 // parameters replaced by the arguments of the call (one level of binding).
@@ -259,7 +365,16 @@ func CmpFactsAt(in ssa.Instruction) []Fact {
 func SoleCallSite(fn *ssa.Function) ssa.Instruction {
 	par := fn.Parent()
 	if par == nil {
-		return soleStaticCaller(fn)
+		if s := soleStaticCaller(fn); s != nil {
+			return s
+		}
+		// a method used only through one method value that is only called: step := (&T{...}).do; step()
+		if bs, used := boundCallSites(fn); used && len(bs) == 1 && fn.Object() != nil && !fn.Object().Exported() {
+			if all := factSites(fn); len(all) == 1 {
+				return bs[0]
+			}
+		}
+		return nil
 	}
 	var sites []ssa.Instruction
 	bad := false
@@ -593,6 +708,9 @@ func soleStaticCaller(fn *ssa.Function) ssa.Instruction {
 	}
 	var sites []ssa.Instruction
 	bad := false
+	if _, used := boundCallSites(fn); used {
+		return nil // its method value is taken: called in ways the plain call sites do not show
+	}
 	for _, g := range PkgFuncs(fn.Pkg) {
 		EachInstr(g, func(in ssa.Instruction) {
 			if cc := CC(in); cc != nil && cc.StaticCallee() == fn {
@@ -837,6 +955,9 @@ func pkgCallers(fn *ssa.Function) []ssa.Instruction {
 	}
 	var sites []ssa.Instruction
 	bad := false
+	if _, used := boundCallSites(fn); used {
+		return nil // its method value is taken
+	}
 	// the functions of the package, and the instantiations of its generic functions (they have no package of their own)
 	scan := PkgFuncs(fn.Pkg)
 	if curProg != nil {
